@@ -55,3 +55,7 @@ Definition write_string (cs : list Z) : list Z := write_bytes_vec (utf8_encode c
 (** <X>Section.WriteTo: id byte, payload length, payload. *)
 Definition write_section (id : Z) (payload : list Z) : list Z :=
   id :: pack_integer (Z.of_nat (length payload)) ++ payload.
+
+(** Module.WriteTo: the preamble (Spec.Leb128.wasm_preamble), then the sections in order, each framed as above. *)
+Definition write_sections (secs : list (Z * list Z)) : list Z :=
+  flat_map (fun s => write_section (fst s) (snd s)) secs.
